@@ -43,6 +43,11 @@ type kind struct {
 	want     string // model's expected answer ("ctxErr 0", "own 0")
 	op       string // the blocking opcode the kind blocks in, if any
 	nonterm  bool
+	// shape family (shapes.go)
+	family string            // "" for the hand-written kinds
+	src    string            // the whole program / template source (instead of decls and body)
+	files  map[string]string // further template files
+	skel   string            // the form's cycle for the dispatch model
 }
 
 const fibDecl = "func fib(n int) int { if n < 2 { return n }; return fib(n-1) + fib(n-2) }\n"
@@ -241,8 +246,18 @@ func kindOf(name string) *kind {
 
 func source(k *kind, K int) run.Case {
 	rep := strings.ReplaceAll(k.body, "KK", strconv.Itoa(K))
+	if k.src != "" {
+		rep = strings.ReplaceAll(k.src, "KK", strconv.Itoa(K))
+	}
 	if k.template {
-		return run.Case{Kind: "template", Main: "index.html", Files: map[string]string{"index.html": rep}, AllowGo: true}
+		files := map[string]string{"index.html": rep}
+		for n, f := range k.files {
+			files[n] = f
+		}
+		return run.Case{Kind: "template", Main: "index.html", Files: files, AllowGo: true}
+	}
+	if k.src != "" {
+		return run.Case{Kind: "program", Files: map[string]string{"main.go": rep}, AllowGo: true}
 	}
 	src := "package main\n\nimport \"h\"\n\nvar _ = h.Input\n\n" + strings.ReplaceAll(k.decls, "KK", strconv.Itoa(K)) + "\nfunc main() {\n" + rep + "\n}\n"
 	return run.Case{Kind: "program", Files: map[string]string{"main.go": src}, AllowGo: true}
@@ -257,6 +272,11 @@ type observed struct {
 }
 
 var boundMs = 2000
+
+// dispatchPred: what the dispatch model answers for a form's compiled shape under the placement of the
+// flag test that the extractor found: "stopped <n>" (the flag is read after n instructions) or
+// "running <n>" (never, in 240 turns of the loop)
+var dispatchPred = map[string]string{}
 
 // exec runs one case.
 func execCase(cs c11Case) (observed, error) {
@@ -323,14 +343,69 @@ func execCase(cs c11Case) (observed, error) {
 	}
 }
 
+// endsOnItsOwn reports whether the case's code, given 400 ms before its context is cancelled, returns
+// before that cancellation with an outcome that is not the context's error.
+func endsOnItsOwn(cs c11Case) bool {
+	probe := c11Case{Kind: cs.Kind, K: cs.K, Ctx: "cancel", DelayUs: 400000}
+	ob, err := execCase(probe)
+	return err == nil && ob.returned && !ob.cancelled && !strings.HasPrefix(ob.outcome.Err, "context ")
+}
+
+// simpler looks for a smaller member of the same family that fails in the same way as b (a run that
+// does not return): the same form with an empty piece or the piece `x++`; the same earlier select and
+// blocker in the first placement. Structured shrinking: the form (or the pair of statements), which
+// is what the failure is about, is kept.
+func simpler(b proto.Break) (proto.Break, bool) {
+	js, ok := strings.CutPrefix(b.Case, "C11 case ")
+	var cs c11Case
+	if !ok || json.Unmarshal([]byte(js), &cs) != nil {
+		return b, false
+	}
+	parts := strings.Split(cs.Kind, "/")
+	var cands []string
+	switch {
+	case len(parts) == 3 && (parts[0] == "loop" || parts[0] == "tpl-loop"):
+		cands = []string{parts[0] + "/" + parts[1] + "/empty", parts[0] + "/" + parts[1] + "/inc"}
+	case len(parts) == 4 && parts[0] == "select":
+		cands = []string{"select/same-function/" + parts[2] + "/" + parts[3]}
+	case len(parts) == 4 && parts[0] == "tpl-select":
+		cands = []string{"tpl-select/same-file/" + parts[2] + "/" + parts[3]}
+	}
+	for _, name := range cands {
+		k := kindOf(name)
+		if k == nil || name == cs.Kind {
+			continue
+		}
+		c2 := cs
+		c2.Kind = name
+		src := source(k, c2.K)
+		human := src.Files["main.go"] + src.Files["index.html"]
+		if len(human) >= len(b.Human) {
+			continue
+		}
+		if ob, err := execCase(c2); err == nil && !ob.returned {
+			nb := b
+			nb.Case, nb.Human = c2.line(), human
+			return nb, true
+		}
+	}
+	return b, false
+}
+
 func runC11(c *hx.Ctx) error {
 	res := c.Res
-	res.Rule = "109 kinds of generated code: 30 callback shapes (a Scriggo function value called by a native function once / n times / until true / nested in another callback / inside a goroutine of the program, its body looping, receiving, sending, selecting, ranging or polling), 48 nested shapes (a range / receive loop / select loop over a channel fed with 1-3 values or endlessly, whose body sends, receives, selects with and without default, ranges over another channel or only computes) and 31 flat ones (tight/counting/nested loops, bounded recursion in a loop, blocked receive/send on unbuffered, full and nil channels, select{} and select without default, range over an open channel, goroutines spinning or blocked, select-default spin, short native calls in a loop, loops inside deferred/recovering functions, a loop inside a native callback, endless pipeline, template for loops / macro / receive; 4 terminating kinds) x random constant x context ending (cancel after 0-30 ms, timeout, cancelled before Run; for terminating code: never, late, background, racing cancel). Non-trivial: non-terminating code whose context ends, or terminating code with a context; distinct by kind+constant+context+delay"
 	if v := os.Getenv("VERIF_C11_BOUND_MS"); v != "" {
 		if n, err := strconv.Atoi(v); err == nil && n > 0 {
 			boundMs = n
 		}
 	}
+	nShapes := 0
+	for _, k := range kinds {
+		if k.family != "" {
+			nShapes++
+		}
+	}
+	res.Rule = fmt.Sprintf("%d hand-written kinds (30 callback shapes, 48 nested shapes, 31 flat ones; see the kinds table) run 12 (thorough 160) times each with a random constant and context ending, and %d composed shapes of the non-terminating / blocking family, each run once (thorough 8 times), the shapes of a family taking the three cancel moments in turn: before Run, during the run (0-20 ms), deadline. Families: loop = 23 ways of running a piece of code for ever (for / for cond / for clause / goto loop / one range over 2^40 zero-sized elements with and without variables / range over a fed channel / recursion: tail, non-tail, guarded by a true or a false condition, through a closure variable, mutual, a 2^40 call tree of distinct functions, a call tree through native callbacks, a chain of deferred calls, a native function calling back for ever / in a goroutine, in a goroutine by recursion, in a range body, in a deferred function, nested three deep, nested huge ranges) x 34 pieces of code (one statement of every kind); tpl-loop = 12 template forms (for, range and for-in over the huge slice, macro recursion plain and guarded, macro call tree, function-value recursion, loop in a macro, goroutine, nested ranges) x 21 template pieces, and 2^40 trees of {{ render }} over 41 files; select = 12 earlier select statements (none, default only, default first / last / in the middle, receive and send cases ready or not, nil channel, in a loop) x 9 constructs that block or spin (select {}, select with only blocked cases, receive, send, range over a channel, tight loop) x 10 placements (same function, callee, caller, closures, goroutine, range body, after a range body, deferred, native callback either way); tpl-select = 9 x 8 x 5 in templates; pair = 8 x 8 (what main does x what a goroutine does). Oracle: Run returns the context's error within %d ms of the context's end (a run that does not is run a second time before it counts), no host panic, goroutines end; a shape that ends on its own before the cancellation (observed by a run with a late cancellation) is judged as terminating code. Non-trivial: non-terminating code whose context ends, or terminating code with a context; distinct by kind+constant+context+delay", len(kinds)-nShapes, nShapes, boundMs)
 	if c.Replay != "" {
 		return replayC11(c)
 	}
@@ -364,14 +439,19 @@ func runC11(c *hx.Ctx) error {
 			res.AddBreak(proto.Break{Kind: "correspondence", Name: "facts", Case: "C11 facts", Impl: "-", Model: facts})
 		}
 		var lines []string
+		var predicted []kind
 		for _, k := range kinds {
+			if k.abs == "" {
+				continue
+			}
+			predicted = append(predicted, k)
 			lines = append(lines, "C11 predict "+k.abs+" "+k.trace)
 		}
 		ans, err := c.D.Batch(lines)
 		if err != nil {
 			return err
 		}
-		for i, k := range kinds {
+		for i, k := range predicted {
 			res.SpecChecks["model-predictions"]++
 			if ans[i] != "ok "+k.want {
 				res.AddBreak(proto.Break{Kind: "correspondence", Name: "model-prediction-for-" + k.name, Case: lines[i],
@@ -379,6 +459,38 @@ func runC11(c *hx.Ctx) error {
 			}
 		}
 		res.Sample(map[string]string{"line": lines[0], "model": ans[0]})
+
+		// the instruction loop: which opcodes can take the program counter backwards or elsewhere, and
+		// what the loop does — with the flag test where the extractor found it — on the compiled
+		// shape of every loop form
+		flow, err := c.D.Ask("C11 flow")
+		if err != nil {
+			return err
+		}
+		res.Notes = append(res.Notes, "instruction loop: "+flow)
+		var skels, dl []string
+		seen := map[string]bool{}
+		for _, k := range kinds {
+			if k.skel != "" && !seen[k.skel] {
+				seen[k.skel] = true
+				skels = append(skels, k.skel)
+				prog, chs, _ := strings.Cut(k.skel, "|")
+				dl = append(dl, "C11 dispatch code "+prog+" "+chs)
+			}
+		}
+		dans, err := c.D.Batch(dl)
+		if err != nil {
+			return err
+		}
+		for i, a := range dans {
+			f := strings.Fields(a)
+			if len(f) != 3 || f[0] != "ok" {
+				res.AddBreak(proto.Break{Kind: "correspondence", Name: "dispatch-model", Case: dl[i], Impl: "-", Model: a})
+				continue
+			}
+			dispatchPred[skels[i]] = f[1] + " " + f[2]
+			res.SpecChecks["dispatch-predictions"]++
+		}
 	}
 
 	baseline := runtime.NumGoroutine()
@@ -399,11 +511,30 @@ func runC11(c *hx.Ctx) error {
 	}
 
 	perKind := c.N(12, 160)
+	perShape := c.N(1, 8)
 	var cases []c11Case
-	for _, k := range kinds {
-		for i := 0; i < perKind; i++ {
+	for ki, k := range kinds {
+		n := perKind
+		if k.family != "" {
+			n = perShape
+		}
+		for i := 0; i < n; i++ {
 			cs := c11Case{Kind: k.name, K: 3 + c.R.Intn(500)}
-			if k.nonterm {
+			if k.family != "" {
+				// the shapes of a family go through the three cancel moments in turn (which shape gets
+				// which moment depends on the seed): before Run, during the run, deadline
+				switch (ki + i + int(c.Seed%3)) % 3 {
+				case 0:
+					cs.Ctx, cs.DelayUs = "cancel", c.R.Intn(20000)
+					if c.R.Intn(4) == 0 {
+						cs.DelayUs = c.R.Intn(300)
+					}
+				case 1:
+					cs.Ctx, cs.DelayUs = "timeout", 100+c.R.Intn(15000)
+				default:
+					cs.Ctx = "precancelled"
+				}
+			} else if k.nonterm {
 				switch x := c.R.Intn(10); {
 				case x < 6:
 					cs.Ctx, cs.DelayUs = "cancel", c.R.Intn(30000)
@@ -424,7 +555,7 @@ func runC11(c *hx.Ctx) error {
 			cases = append(cases, cs)
 		}
 	}
-	// shuffle, then run three at a time
+	// shuffle, then run four at a time
 	for i := len(cases) - 1; i > 0; i-- {
 		j := c.R.Intn(i + 1)
 		cases[i], cases[j] = cases[j], cases[i]
@@ -436,7 +567,7 @@ func runC11(c *hx.Ctx) error {
 	}
 	outs := make([]outRec, len(cases))
 	var wg sync.WaitGroup
-	sem := make(chan struct{}, 3)
+	sem := make(chan struct{}, 4)
 	var hangs int32
 	var hmu sync.Mutex
 	for i, cs := range cases {
@@ -455,6 +586,11 @@ func runC11(c *hx.Ctx) error {
 			defer func() { <-sem }()
 			ob, err := execCase(cs)
 			if err == nil && !ob.returned {
+				// a run that does not return is a property of the code, not of the moment: it must
+				// do so again (a machine under load can delay the watcher goroutine of one run)
+				ob, err = execCase(cs)
+			}
+			if err == nil && !ob.returned {
 				hmu.Lock()
 				hangs++
 				hmu.Unlock()
@@ -466,24 +602,55 @@ func runC11(c *hx.Ctx) error {
 
 	var maxLat time.Duration
 	var lats []time.Duration
+	var pending []proto.Break // failing inputs; the smallest one is reported first
+	var errs []string
+	for _, o := range outs {
+		if o.err != nil {
+			errs = append(errs, o.err.Error())
+		}
+	}
+	if len(errs) > 0 {
+		sort.Strings(errs)
+		if len(errs) > 40 {
+			errs = errs[:40]
+		}
+		return fmt.Errorf("%d cases could not be run: %s", len(errs), strings.Join(errs, "\n"))
+	}
 	for _, o := range outs {
 		if o.cs.Kind == "" {
 			continue
 		}
-		if o.err != nil {
-			return o.err
-		}
 		k := kindOf(o.cs.Kind)
 		res.Count(o.cs.line(), k.nonterm || o.cs.Ctx != "background")
-		res.Hist("kind:" + k.name)
+		if k.family == "" {
+			res.Hist("kind:" + k.name)
+		} else {
+			res.Hist("family:" + k.family)
+			res.Hist("form:" + k.family + "/" + strings.Split(k.name, "/")[1])
+		}
 		res.Hist("ctx:" + o.cs.Ctx)
 		human := source(k, o.cs.K).Files["main.go"] + source(k, o.cs.K).Files["index.html"]
 		brk := func(name, impl, model string) {
-			res.AddBreak(proto.Break{Kind: "property", Name: name, Case: o.cs.line(), Human: human, Impl: impl, Model: model})
+			pending = append(pending, proto.Break{Kind: "property", Name: name, Case: o.cs.line(), Human: human, Impl: impl, Model: model})
 		}
+		pred := dispatchPred[k.skel]
 		if !o.ob.returned {
-			brk("run-does-not-return-within-bound", fmt.Sprintf("Run had not returned %d ms after the context was done", boundMs), "Run returns the context's error")
+			model := "Run returns the context's error"
+			if pred != "" {
+				model += "; instruction loop of the model on this form, flag set: " + pred
+				res.Hist("dispatch:" + strings.Fields(pred)[0] + "/real:no-return")
+			}
+			brk("run-does-not-return-within-bound", fmt.Sprintf("Run had not returned %d ms after the context was done", boundMs), model)
 			continue
+		}
+		if pred != "" {
+			res.Hist("dispatch:" + strings.Fields(pred)[0] + "/real:returned")
+			if strings.HasPrefix(pred, "running") && strings.HasPrefix(o.ob.outcome.Err, "context ") {
+				// the model, with the flag test where the extractor found it, never reads the flag on
+				// this form — the real loop did
+				res.AddBreak(proto.Break{Kind: "correspondence", Name: "dispatch-model-reads-no-flag-but-run-stopped", Case: o.cs.line(), Human: human,
+					Impl: o.ob.outcome.String(), Model: "C11 dispatch code " + k.skel + " = " + pred})
+			}
 		}
 		if o.ob.outcome.Panic != "" {
 			brk("host-panic", o.ob.outcome.String(), "no panic out of Run")
@@ -495,6 +662,13 @@ func runC11(c *hx.Ctx) error {
 				wantErr = "context deadline exceeded"
 			}
 			if o.ob.outcome.Err != wantErr {
+				// the clause is about code that is still running when the context ends: a shape that
+				// comes to an end on its own (observed, not assumed: run again with a context that is
+				// cancelled much later) is judged as terminating code
+				if endsOnItsOwn(o.cs) {
+					res.Hist("ends-on-its-own:" + k.name)
+					continue
+				}
 				brk("returns-context-error", o.ob.outcome.String(), "err="+wantErr)
 			}
 			if o.ob.latency > maxLat {
@@ -516,6 +690,21 @@ func runC11(c *hx.Ctx) error {
 			if o.ob.outcome != want {
 				brk("finished-before-cancel-returns-own-outcome", o.ob.outcome.String(), want.String())
 			}
+		}
+	}
+	sort.SliceStable(pending, func(i, j int) bool { return len(pending[i].Human) < len(pending[j].Human) })
+	if len(pending) > 0 && pending[0].Name == "run-does-not-return-within-bound" {
+		if b, ok := simpler(pending[0]); ok {
+			pending = append([]proto.Break{b}, pending...)
+		}
+	}
+	for _, b := range pending {
+		res.AddBreak(b)
+	}
+	sort.Slice(outs, func(i, j int) bool { return outs[i].ob.latency > outs[j].ob.latency })
+	for i := 0; i < 5 && i < len(outs); i++ {
+		if outs[i].ob.latency > 150*time.Millisecond {
+			res.Notes = append(res.Notes, fmt.Sprintf("slow stop: %v %s", outs[i].ob.latency, outs[i].cs.line()))
 		}
 	}
 	sort.Slice(lats, func(i, j int) bool { return lats[i] < lats[j] })
